@@ -111,6 +111,8 @@ def predicate(t):
         rules.append("component_missing")
     if f is not None and any(a in NOBRANCH for a in ch1[:f]):
         rules.append("fan_out_at_or_below_no_branch_adapter")
+    if t.get("ch3") is not None and src == "pull" and any(a in NEEDS_PUSH for a in t["ch3"]):
+        rules.append("push_needing_element_behind_pull_only_source")
     return sorted(set(rules))
 
 
@@ -122,7 +124,8 @@ def run_topology(t):
         kinds1["x"] = "pull"
     c1 = Cons("C1", kinds1)
     c2 = Cons("C2", {"i": t["s2"]}) if t["fan"] is not None else None
-    comps = [c for c in (prod, c1, c2) if c is not None]
+    c3 = Cons("C3", {"i": "pull"}) if t.get("ch3") is not None else None  # a third consumer on its own branch from the producer's output
+    comps = [c for c in (prod, c1, c2, c3) if c is not None]
     listed = list(comps)
     if t["listing"] == "no_producer":
         listed.remove(prod)
@@ -150,17 +153,40 @@ def run_topology(t):
         edges[(rep(a), rep(b))] += 1
         return b
 
+    # the links are collected first and created in the order asked for (validation must not depend on the order of link creation)
+    todo = []
+
+    def plan(a, b):
+        todo.append((a, b))
+        return b
+
     cur = prod.outputs["o"]
     elems = [cur]
     for a in t["ch1"]:
-        cur = link(cur, AD[a]())
+        cur = plan(cur, AD[a]())
         elems.append(cur)
-    link(cur, c1.inputs["i"])
+    plan(cur, c1.inputs["i"])
     if t["fan"] is not None:
         cur = elems[t["fan"]]
         for a in t["ch2"]:
-            cur = link(cur, AD[a]())
-        link(cur, c2.inputs["i"])
+            cur = plan(cur, AD[a]())
+        plan(cur, c2.inputs["i"])
+    if c3 is not None:
+        cur = prod.outputs["o"]
+        for a in t["ch3"]:
+            cur = plan(cur, AD[a]())
+        plan(cur, c3.inputs["i"])
+    lo = t.get("lorder", "id")
+    order = list(range(len(todo)))
+    if lo == "rev":
+        order.reverse()
+    elif lo == "third_first" and c3 is not None:
+        k = len(t["ch3"]) + 1
+        order = order[-k:] + order[:-k]
+    elif lo == "sinks_first":
+        order = sorted(order, key=lambda i: (not isinstance(todo[i][1], fm.Input), i))
+    for i in order:
+        link(*todo[i])
     want = predicate(t)
     bad = []
     outcome = "ok"
@@ -170,6 +196,20 @@ def run_topology(t):
         outcome = "connect_error"
     except Exception as e:  # noqa
         outcome = "other:" + type(e).__name__
+    if t.get("retry") and outcome == "connect_error":
+        # history: the rejected composition is tried again - unchanged (same verdict) or after the missing link was created (verdict of the repaired topology)
+        first = outcome
+        if t["retry"] == "repair" and t["extra"]:
+            link(prod.outputs["o"], c1.inputs["x"])
+            want = predicate(dict(t, extra=False))
+        CALLS.clear()
+        outcome = "ok"
+        try:
+            comp.connect(T0)
+        except E.FinamConnectError as e:
+            outcome = "connect_error"
+        except Exception as e:  # noqa
+            outcome = "other:" + type(e).__name__
     if want:
         if outcome != "connect_error":
             bad.append(("not_rejected", f"rules {want} apply but connect() gave {outcome}"))
@@ -255,6 +295,23 @@ def topologies(tier):
                     out.append(dict(src=src, ch1=list(ch1), s1="pull", fan=f, ch2=[], s2="pull", listing="all", extra=False))
                     if f == n:
                         out.append(dict(src=src, ch1=list(ch1), s1="cb", fan=f, ch2=["S"], s2="pull", listing="all", extra=False))
+    # histories: a rejected composition is connected again, unchanged or after the missing link was created
+    for src in ("push", "static", "pull"):
+        for ch1 in [c for c in chains if len(c) <= 2]:
+            for s1 in ("pull", "static", "cb"):
+                for retry in ("same", "repair"):
+                    out.append(dict(src=src, ch1=ch1, s1=s1, fan=None, ch2=[], s2="pull", listing="all", extra=True, retry=retry))
+                out.append(dict(src=src, ch1=ch1, s1=s1, fan=None, ch2=[], s2="pull", listing="no_producer", extra=False, retry="same"))
+    # three consumers: a fan-out behind one branch of the output and a third consumer on a branch of its own, links created in several orders
+    short = [c for c in chains if len(c) <= (1 if q else 2)]
+    for src in ("push", "pull"):
+        for ch1 in [c for c in chains if 1 <= len(c) <= 2]:
+            for ch3 in short:
+                for lo in ("id", "rev", "third_first", "sinks_first"):
+                    out.append(dict(src=src, ch1=ch1, s1="pull", fan=len(ch1), ch2=[], s2="pull", listing="all", extra=False, ch3=ch3, lorder=lo))
+    for t0 in [x for x in out if x["fan"] is not None and x.get("ch3") is None and x["listing"] == "all" and len(x["ch1"]) <= 1][:: (3 if q else 1)]:
+        out.append(dict(t0, lorder="rev"))
+        out.append(dict(t0, lorder="sinks_first"))
     return out
 
 
